@@ -20,13 +20,13 @@
      hier_url pre se ue hs he hi po segs last q f
                            the record  pre "/" seg "/" ... "/" last ["?" q]["#" f]  with path_start = |pre| and
                            query_start / fragment_start at the '?' / '#'  (Proofs/C08_RelMr.v)
-     rel_ok ...            pre carries "://" at offset se, the scheme is not "file", the base's segments are free
+     rel_ok ...            pre carries "://" at offset se or is just "scheme:", the scheme is not "file", the base's segments are free
                            of '/', the target's segments / query / fragment are what the parser stores (clean for
                            PATH / QUERY-or-SPECIAL_QUERY / FRAGMENT, no dot segment, no '\' under a special scheme),
                            the target is shorter than 2^32  (Proofs/C08_RelLaw.v)
      rel_canon b t         the same as ONE computable test on two arbitrary records: both are of the hier_url form
-                           (decided by re-building the record from its own accessors), base "scheme://" and not
-                           file, target canonical, the seven stored values in front of the path agree, mr_ok b t
+                           (decided by re-building the record from its own accessors), base "scheme://..." or
+                           "scheme:/path" and not file, target canonical, the seven stored values in front of the path agree, mr_ok b t
                            (Proofs/C08_RelCanon.v) *)
 From Coq Require Import String.
 From RU Require Import Base.Prelude Base.Utf8 Base.Utf8Facts Model.AsciiSet Gen.Tables Model.PercentEncoding
@@ -251,7 +251,7 @@ Proof. exact make_relative_same_path. Qed.
 Print Assumptions C08_relative_partial.
 
 (* PROVED: the inverse law itself, for every scheme except "file", base and target with authority
-   ("scheme://..."), the base with or without query and fragment: same directory (reference = last segment),
+   ("scheme://...") or without ("scheme:/path", no "/." marker), the base with or without query and fragment: same directory (reference = last segment),
    sub-directory, '../' steps, "/" at the root, "?q", "#f" and the empty reference - for both build
    configurations and arbitrary host functions.  Explicit form: *)
 Theorem C08_relative_hier : forall dbg hp hpo hd pre se ue hs he hi po bsegs blast bq bf tsegs tlast tq tf r,
@@ -273,7 +273,7 @@ Print Assumptions C08_relative_hier.
 
 (* ... and on arbitrary records, the domain being one computable test (what is missing towards
    C08_relative_statement: that every parse result with authority passes hier_canon / rel_target_ok - C02's L1
-   for URLs with authority -, file URLs, and authority-less "scheme:/path" URLs) *)
+   for URLs with authority; for authority-less ones C02_L1_noauth has it - and file URLs) *)
 Theorem C08_relative_canon : forall dbg hp hpo hd b t r,
   rel_canon b t = true -> make_relative dbg b t = Some (Some r) ->
   join dbg hp hpo hd b r = POk t.
@@ -301,7 +301,10 @@ Example C08_relative_canon_inhabited :
   /\ rel_canon_on "non-spec://h/a/b/c/d" "non-spec://h/a/x%20y/z\w?q=\#f" = true
   /\ mr_answer "non-spec://h/a/b/c/d" "non-spec://h/a/x%20y/z\w?q=\#f" "../../x%20y/z\w?q=\#f" = true
   /\ rel_canon_on "http://h/a/b" "http://h/a/b#f" = true
-  /\ rel_canon_on "http://h/a/b#x" "http://h/a/b" = true.
+  /\ rel_canon_on "http://h/a/b#x" "http://h/a/b" = true
+  /\ rel_canon_on "a:/x/y" "a:/x/z#f" = true /\ mr_answer "a:/x/y" "a:/x/z#f" "z#f" = true
+  /\ rel_canon_on "web+demo:/a/b/c?bq" "web+demo:/a/d/" = true /\ mr_answer "web+demo:/a/b/c?bq" "web+demo:/a/d/" "../d/" = true
+  /\ rel_canon_on "a:/x" "a:/" = true /\ mr_answer "a:/x" "a:/" "/" = true.
 Proof. exact rel_canon_inhabited. Qed.
 Example C08_relative_hier_inhabited :
   rel_ok (B "http://h") 4 [B "a"; B "b"] (B "f") [B "a"; B "c"] (B "g") (Some (B "q")) None
